@@ -342,6 +342,8 @@ func c12ScenarioBody(e *c12Out, tr *poolTracker, desc string) {
 		c12PoolSeq(e, tr, desc, f[1])
 	case "R":
 		c12PoolPar(e, tr, desc, f[1])
+	case "E":
+		c12BwRecv(e, tr, desc, f[1])
 	}
 }
 
@@ -349,7 +351,7 @@ func runC12(a runArgs) error {
 	e := NewEmitter("C12", "Pool.Run")
 	e.Preamble = "From GoCoap Require Import Pool.Model Pool.Spec Pool.Bounded."
 	e.ShardSize = 60
-	e.Rule = "complete pool lifecycle traces (release / recycle / re-acquire reported by the verif hook in message/pool, plus hold / unhold / application-release events of the harness with a content digest at hand-over and at the end of the hold). Families on a real udp/client.Conn over an in-memory session: (A) server-role request histories with duplicates, ageing and ticks (generator of C05); (B) client-role Do histories with retransmission ticks, ACK/RST/piggybacked/separate responses and cancellations (generator of C06); (C) concurrent callers + responder + peer requests + housekeeping ticks; (T) tcp/client.Conn against a scripted peer. (P) the exchange histories of C13 on a back-to-back pair of real udp/client.Conn, tracker on both: block-wise up/down incl. abandoned transfers, observe + notifications + cancel, ping answered/lost/cancelled, one-way writes, duplicated and dropped datagrams, limiter-queued-then-cancelled, separate pools or one small shared pool; (N) a tcp/client.Conn against the library's tcp server over an in-memory stream: CSM, block-wise up/down, observe with block-wise notifications, ping; (S) the library's udp server on a loopback socket with several clients from udp.Dial: plain, block-wise, observe, ping, one-way; (Q) sequential acquire/release scripts on a small pool compared step by step with the counter model; (R) goroutines hammering one small pool. Distinct = distinct trace; non-trivial = the trace contains at least one re-acquisition of a recycled message and one application hold (Q: at least one release refused by a full pool)."
+	e.Rule = "complete pool lifecycle traces (release / recycle / re-acquire reported by the verif hook in message/pool, plus hold / unhold / application-release events of the harness with a content digest at hand-over and at the end of the hold). Families on a real udp/client.Conn over an in-memory session: (A) server-role request histories with duplicates, ageing and ticks (generator of C05); (B) client-role Do histories with retransmission ticks, ACK/RST/piggybacked/separate responses and cancellations (generator of C06); (C) concurrent callers + responder + peer requests + housekeeping ticks; (T) tcp/client.Conn against a scripted peer. (P) the exchange histories of C13 on a back-to-back pair of real udp/client.Conn, tracker on both: block-wise up/down incl. abandoned transfers, observe + notifications + cancel, ping answered/lost/cancelled, one-way writes, duplicated and dropped datagrams, limiter-queued-then-cancelled, separate pools or one small shared pool; (N) a tcp/client.Conn against the library's tcp server over an in-memory stream: CSM, block-wise up/down, observe with block-wise notifications, ping; (S) the library's udp server on a loopback socket with several clients from udp.Dial: plain, block-wise, observe, ping, one-way; (Q) sequential acquire/release scripts on a small pool compared step by step with the counter model; (R) goroutines hammering one small pool; (E) scripted block-wise exchanges on a udp/client.Conn with block-wise enabled (SZX16): the application's GET/POST/PUT/FETCH/DELETE or block-wise upload answered datagram by datagram with blocks whose ETag changes, with wrong numbers, wrong lengths, foreign tokens, an early last block, a plain response in the middle, 2.31 with wrong numbers, and the same for a peer uploading to us - besides the complete trace, the events of the receive goroutine per datagram are emitted as an Exchange case and compared with the modelled path of the observed return point. Distinct = distinct trace; non-trivial = the trace contains at least one re-acquisition of a recycled message and one application hold (Q: at least one release refused by a full pool; Exchange: at least one error return)."
 	rng := NewRng(a.seed)
 	tr := newPoolTracker()
 	pool.VerifSetTracker(tr)
@@ -398,7 +400,12 @@ func runC12(a runArgs) error {
 		callers, per, peers := 2+rng.Intn(3), 3+rng.Intn(3), 6+rng.Intn(8)
 		c12Scenario(e, tr, fmt.Sprintf("C#%d,%d,%d,%d", seed, callers, per, peers))
 	}
-	for _, d := range c12MoreDescriptors(NewRng(rng.U64()), thorough) {
+	more := c12MoreDescriptors(NewRng(rng.U64()), thorough)
+	// E comes first among the newer families: short sequential scripts (the run stops after five scenarios with a violation)
+	for _, d := range c12BwDescriptors(NewRng(rng.U64()), thorough) {
+		c12Scenario(e, tr, d)
+	}
+	for _, d := range more {
 		c12Scenario(e, tr, d)
 	}
 	return e.Flush(a.out)
